@@ -34,7 +34,9 @@ EXTENDS Integers, Sequences, SequencesExt, FiniteSets, TLC, Json
 CONSTANTS Small,        \* TRUE: fewer field names and container kinds (quick tier)
           ValDepth,     \* nesting depth of the field value below the top-level record (1..2)
           PredDepth,    \* 1: atoms, 2: and/or/not over atoms
-          OutFile       \* ndjson file for the case table ("" = none)
+          OutFile,      \* ndjson file for the case table ("" = none)
+          FoldFile,     \* ndjson file for the case-folding table ("" = none)
+          FoldLen       \* case-folding table: texts of length 2..FoldLen
 
 \* ---------------------------------------------------------------- values
 \* [k, s, n, cs]: kind, string payload, int payload, children <<[n |-> field name or "", v |-> value]>>
@@ -256,6 +258,54 @@ Row(p) == [pred |-> PText(p), shape |-> PShape(p),
                         (IF Eval(p, ValSeq[i]) THEN "1" ELSE "0") \o BF(p, ValSeq[i]) \o (IF Tainted(p, ValSeq[i]) THEN "!" ELSE "")]]
 Export == OutFile = "" \/
           ( /\ ndJsonSerialize(OutFile, <<[values |-> [i \in 1..Len(ValSeq) |-> ZSON(ValSeq[i])]]>> \o SetToSeq({Row(p) : p \in Preds})) )
+
+\* ======================================================================
+\* Case folding of the keyword search (pkg/stringsearch CaseFinder vs the
+\* evaluator's stringSearch / strings.EqualFold)
+\* ======================================================================
+\* The keyword's buffer filter is NewBufferFilterForStringCase(term) for string values and
+\* FieldNameFinder (the same CaseFinder) for field names; the evaluator compares with
+\* strings.EqualFold.  Both sides are transcribed over bytes: the letters at the two ends
+\* of the alphabet and the non-letters next to them.
+\*     '@' 64   'A' 65   'Z' 90   '[' 91   '`' 96   'a' 97   'z' 122   '{' 123
+FoldBytes == {64, 65, 90, 91, 96, 97, 122, 123}
+Chr(b) == CASE b = 64 -> "@" [] b = 65 -> "A" [] b = 90 -> "Z" [] b = 91 -> "["
+            [] b = 96 -> "`" [] b = 97 -> "a" [] b = 122 -> "z" [] b = 123 -> "{"
+\* stringsearch.tolower: if b-'A' < 26 { b += 'a'-'A' }   (byte arithmetic: 'A' <= b <= 'Z')
+ToLowerByte(b) == IF b >= 65 /\ b - 65 < 26 THEN b + 32 ELSE b
+\* strings.ToLower on an ASCII pattern (NewCaseFinder lowers the pattern with the standard library)
+StdLower(b) == IF b >= 65 /\ b <= 90 THEN b + 32 ELSE b
+\* strings.EqualFold on two ASCII bytes
+IsLetter(b) == (b >= 65 /\ b <= 90) \/ (b >= 97 /\ b <= 122)
+EqualFoldByte(x, y) == x = y \/ (IsLetter(x) /\ IsLetter(y) /\ StdLower(x) = StdLower(y))
+\* CaseFinder.Next(text) # -1: some window of text equals the lowered pattern after tolower
+CaseFinds(term, text) ==
+  \E off \in 0..(Len(text) - Len(term)) : \A j \in 1..Len(term) : ToLowerByte(text[off + j]) = StdLower(term[j])
+\* expr.stringSearch(text, term): some window of text is EqualFold to the term
+FoldContains(term, text) ==
+  \E off \in 0..(Len(text) - Len(term)) : \A j \in 1..Len(term) : EqualFoldByte(text[off + j], term[j])
+FoldTerms == {<<x, y>> : x \in FoldBytes, y \in FoldBytes}           \* >= 2 bytes, ASCII: the case finder is used
+RECURSIVE FoldTextsOf(_)
+FoldTextsOf(n) == IF n = 2 THEN FoldTerms
+                  ELSE LET p == FoldTextsOf(n - 1) IN p \cup {Append(t, x) : t \in {u \in p : Len(u) = n - 1}, x \in FoldBytes}
+FoldTexts == FoldTextsOf(FoldLen)
+\* the buffer filter of `search term` over a frame holding {k:text} (string value) or {text:1}
+\* (field name) is CaseFinds; the evaluator says FoldContains
+FoldSound == \A term \in FoldTerms : \A text \in FoldTexts : FoldContains(term, text) => CaseFinds(term, text)
+FoldNonVacuous == /\ \E term \in FoldTerms, text \in FoldTexts : FoldContains(term, text) /\ term # text    \* a case variant matches
+                  /\ \E term \in FoldTerms, text \in FoldTexts : ~CaseFinds(term, text)                     \* frames are skipped
+RECURSIVE BytesStr(_)
+BytesStr(t) == IF t = <<>> THEN "" ELSE Chr(t[1]) \o BytesStr(Tail(t))
+FoldTextSeq == SetToSeq(FoldTexts)
+FoldRow(term) == [term |-> BytesStr(term),
+                  cells |-> [i \in 1..Len(FoldTextSeq) |->
+                               (IF FoldContains(term, FoldTextSeq[i]) THEN "1" ELSE "0") \o (IF CaseFinds(term, FoldTextSeq[i]) THEN "T" ELSE "F")]]
+FoldExport == FoldFile = "" \/
+              ndJsonSerialize(FoldFile, <<[texts |-> [i \in 1..Len(FoldTextSeq) |-> BytesStr(FoldTextSeq[i])]]>> \o SetToSeq({FoldRow(t) : t \in FoldTerms}))
+
+ASSUME FoldSound
+ASSUME FoldNonVacuous
+ASSUME FoldExport
 
 ASSUME OverApprox
 ASSUME TaintWitnessed
